@@ -248,6 +248,37 @@ Theorem C16_poisson_3d : forall (sc : smooth_cfg) (sm : bool) (sh : shape3 (T:=R
 Proof. exact poisson3_history. Qed.
 Print Assumptions C16_poisson_3d.
 
+(* The grids on which integrate() refuses to work (after "fix: 2-D/3-D PMF integration on a grid with a single point
+   along a periodic variable indexed outside its arrays"): exactly those with a periodic variable whose single bin
+   spans the period; the constructor raises an input error (the ABF bias is not created) and integrate() makes no
+   iteration and leaves the surface and the caller's error variable untouched.  All Laplacian / Poisson theorems
+   above concern the per-point stencil, which the C++ loops implement for >= 2 points per dimension
+   (tied by the correspondence check). *)
+Theorem C16_grid_refused_iff_single_point_periodic_2d : forall (sh : shape2 (T:=R)), (0 < nxg sh)%Z -> (0 < nyg sh)%Z ->
+  (shape_ok2 sh = false <-> (px sh = true /\ nxg sh = 1%Z) \/ (py sh = true /\ nyg sh = 1%Z)).
+Proof. exact (@shape_ok2_spec R). Qed.
+Print Assumptions C16_grid_refused_iff_single_point_periodic_2d.
+
+Theorem C16_grid_refused_iff_single_point_periodic_3d : forall (sh : shape3 (T:=R)),
+  (0 < mxg sh)%Z -> (0 < myg sh)%Z -> (0 < mzg sh)%Z ->
+  (shape_ok3 sh = false <->
+   (qx sh = true /\ mxg sh = 1%Z) \/ (qy sh = true /\ myg sh = 1%Z) \/ (qz sh = true /\ mzg sh = 1%Z)).
+Proof. exact (@shape_ok3_spec R). Qed.
+Print Assumptions C16_grid_refused_iff_single_point_periodic_3d.
+
+Theorem C16_refused_grid_untouched_2d : forall (sh : shape2 (T:=R)) itmax tol D x0 err0, shape_ok2 sh = false ->
+  let o := integrate2 Rops sh itmax tol D x0 err0 in out_iter _ o = 0%Z /\ out_x _ o = x0 /\ out_err _ o = err0.
+Proof. exact integrate2_refused. Qed.
+Print Assumptions C16_refused_grid_untouched_2d.
+
+Theorem C16_refused_grid_untouched_3d : forall (sh : shape3 (T:=R)) itmax tol D x0 err0, shape_ok3 sh = false ->
+  let o := integrate3 Rops sh itmax tol D x0 err0 in out_iter _ o = 0%Z /\ out_x _ o = x0 /\ out_err _ o = err0.
+Proof. exact integrate3_refused. Qed.
+Print Assumptions C16_refused_grid_untouched_3d.
+
+Example C16_example_refused : shape_ok2 (mkShape2 true false 1 3 1%R 1%R) = false /\ shape_ok2 sh22 = true.
+Proof. split; reflexivity. Qed.
+
 (* non-vacuity of (2) and (3): on the 2x2 (2x2x2) grid of a single non-periodic bin per dimension the solver makes
    one iteration and reports err = 0 for a right-hand side that is an eigenvector of the Laplacian *)
 Example C16_example_cg_2d : let o := integrate2 Rops sh22 1 0%R b22 (fun _ => 0%R) 0%R in
